@@ -231,6 +231,42 @@ def build(S, tier):
             if isinstance(n, (ast.For, ast.comprehension)) and is_set_expr(n.iter) and not excluded(n.iter):
                 S.prove(f"static:determinism:{rel}:{n.iter.lineno}#no_iteration_over_a_set", False, kind="static",
                         why=f"iteration over the set `{ast.unparse(n.iter)[:60]}` (order depends on PYTHONHASHSEED for strings)")
+    # ------------------------------------------------------------------ two replicas rebuilt from ONE dictionary are two simulations
+    # (same seed, same trajectory for each of them: that needs each to own its atoms, generator and move table)
+    from pyvc.models.ser_model import AtomsSer
+    from pyvc.objects import Builtin
+
+    def run_replicas(I):
+        for m in I.loader.all_module_names():
+            I.import_module(m)
+        I.loader.models["ase.atoms"].attrs["Atoms"] = Builtin("Atoms", lambda I_, a, k: AtomsSer(I_, 0, tag="empty"))
+        cls = I.get_class("quansino.mc.canonical.Canonical")
+        sim = I.call(cls, [AtomsSer(I, 2)], {"seed": 7, "temperature": 300})
+        D = I.get_class("quansino.moves.displacement.DisplacementMove")
+        op = I.call(I.get_class("quansino.operations.displacement.Ball"), [1], {})
+        from pyvc.values import Tensor
+        I.call(I.getattr(sim, "add_move"), [I.call(D, [Tensor((2,), [0, 1], "int"), op], {})], {"name": "d"})
+        data = I.call(I.getattr(sim, "to_dict"), [], {})
+        a = I.call(I.getattr(cls, "from_dict"), [data], {})
+        b = I.call(I.getattr(cls, "from_dict"), [data], {})
+        return dict(a=a, b=b, data=data)
+
+    label = "quansino.mc.core.MonteCarlo.from_dict[two replicas from one dictionary]"
+    for i, p in enumerate(S.explore(run_replicas, label)):
+        S.adopt(p, prefix="[replicas]")
+        if p.status == "unsupported":
+            continue
+        if p.status != "return":
+            S.prove(f"{label}#noraise@{i}", False, kind="noraise", why=f"raises {p.exc!r}")
+            continue
+        a, b, data = p.value["a"], p.value["b"], p.value["data"]
+        shared = [nm for nm in ("atoms", "_rng", "moves", "context") if a.attrs.get(nm) is b.attrs.get(nm)]
+        S.prove(f"{label}#ensures.replicas_share_no_state@{i}", shared == [], kind="ensures", why=f"both replicas hold the same object for {shared}")
+        S.prove(f"{label}#ensures.the_dictionary_keeps_its_own_atoms@{i}", a.attrs.get("atoms") is not data.get("atoms") and b.attrs.get("atoms") is not data.get("atoms"), kind="ensures")
+        ma, mb = a.attrs.get("moves", {}).get("d"), b.attrs.get("moves", {}).get("d")
+        S.prove(f"{label}#ensures.replicas_have_their_own_move_objects@{i}", ma is not None and mb is not None and ma.attrs.get("move") is not mb.attrs.get("move"), kind="ensures")
+    S.register_function(I0, "quansino.mc.core.MonteCarlo.from_dict", 1)
+
     S.prove("static:randomness#cover.draw_sites_found", n_draw_sites >= 10, kind="cover", why=f"{n_draw_sites} draw sites")
     S.prove("static:randomness#all_modules_scanned", len(I0.loader.all_module_names()) >= 30, kind="cover")
     return meta
